@@ -266,6 +266,8 @@ func runC02(c *eng.Ctx) {
 	c.Rule("ORDER", famT+".newTableBuilder", func() { newTableBuilderClaimsFirst(c) })
 	// ---- 16. one family object per family (F36): pending outputs are kept per family OBJECT -------------------------------------------
 	c.Rule("ATOMIC", "kv.store.CreateFamily{look-up, create and register in one write hold}", func() { createFamilyOnce(c) })
+	// ---- 17. an edit log carries the id of the family that commits it (replay routes records by that id) ------------------------------------
+	c.Rule("PROV", "kv{edit log family id = the committing family}", func() { editLogOwnID(c) })
 
 	c.Observe("snapshot.Load obtains readers through cache.GetReader without recording them for release — a reference leak (readers stay open), not a safety violation")
 }
@@ -627,4 +629,56 @@ func createFamilyOnce(c *eng.Ctx) {
 		c.Check(found, fmt.Sprintf("look-up-in-the-registering-hold[%d]", i), r.Instr, f,
 			"the look-up that decides to create is repeated inside the write hold that registers the new family object", detail)
 	}
+}
+
+// editLogOwnID (shared by C02 and C01): a running store routes a commit by family NAME and never reads the id inside the edit log; the
+// manifest replay routes every record by that id. Every edit log / compaction a family (or its flusher) builds must therefore carry
+// the id of that very family: ID() called on the method's own receiver (or on the flusher's own family), never on another family
+// that happens to be at hand (the rollup source).
+func editLogOwnID(c *eng.Ctx) {
+	p := c.P
+	n := 0
+	perFn := map[string]int{}
+	for _, fn := range p.FuncsWithPrefix("kv.") {
+		for _, s := range p.SitesDirect(fn, eng.CallTo("kv/version.NewEditLog", "kv/version.NewCompaction")) {
+			top := fn
+			for top.Parent() != nil {
+				top = top.Parent()
+			}
+			if top.Signature.Recv() == nil && !strings.HasSuffix(p.FuncKey(top), "newStoreFlusher") {
+				continue
+			}
+			n++
+			id := eng.Unwrap(eng.CallArgs(s.Instr.(ssa.CallInstruction))[0])
+			ok := false
+			detail := "family id argument is " + p.Desc(id)
+			if cl, isCall := id.(*ssa.Call); isCall {
+				name := ""
+				if cl.Common().IsInvoke() {
+					name = cl.Common().Method.Name()
+				} else if g := cl.Common().StaticCallee(); g != nil {
+					name = baseName(g.Name())
+				}
+				recv := eng.CallRecv(cl)
+				if name == "ID" && recv != nil {
+					own := ssa.Value(top.Params[0])
+					// ID() of the receiver itself, of a field of the receiver (sf.family), or - in the flusher's constructor - of the family it is built for
+					ok = eng.DependsOn(recv, func(x ssa.Value) bool { return x == own })
+					if ok && top.Signature.Recv() != nil {
+						for _, pr := range top.Params[1:] {
+							pr := pr
+							if eng.DependsOn(recv, func(x ssa.Value) bool { return x == ssa.Value(pr) }) {
+								ok = false
+								detail = "ID() is called on parameter " + pr.Name() + ", another family than the one that commits the log"
+							}
+						}
+					}
+				}
+			}
+			perFn[p.FuncKey(top)]++
+			c.Check(ok, fmt.Sprintf("own-id@%s[%d]", p.FuncKey(top), perFn[p.FuncKey(top)]), s.Instr, fn,
+				"the edit log is created with the id of the family that commits it", detail)
+		}
+	}
+	c.Check(n >= 3, "edit-log-sites-found", nil, nil, "families and flushers create edit logs", fmt.Sprintf("%d sites", n))
 }
